@@ -531,6 +531,14 @@ fn evaluate<M: Matcher>(p: &Prep, m: &M, answers: &[String], ctx: &mut Ctx) {
                 hex(input),
                 vec![nchunk.to_string(); input.len() + 8].join(" ")
             )),
+            // search_path without memory maps reads the file through the same decoder + roll buffer; a File returns
+            // min(free space, rest of the file) per read call = the model's reader with an empty script
+            (Strategy::Path(_), AnyM::Lit(_)) if !*mmap && input.len() <= 600 => Some(format!(
+                "c16.rbl {} {} {} (script) - -",
+                cfg.effective().to_sx(),
+                p.msx,
+                hex(input)
+            )),
             _ => None,
         };
         if let Some(req) = &reader_model {
